@@ -140,6 +140,19 @@ def run_case(ctx, g, rng):
         loader = rng.choice([C.from_extended_prefix_map, api.load_extended_prefix_map])
         o = three_forms(ctx, loader, epm, "extended_prefix_map")
         call(C.from_extended_prefix_map, [gen.mk_record(api, r) for r in recs])
+        # "an iterable of records or dictionaries": also handed over as one-shot iterables
+        shape = rng.choice(["generator", "iterator", "map", "generator-of-records", "tuple"])
+        S.counters[f"wl:epm-shape:{shape}"] += 1
+        if shape == "generator":
+            call(C.from_extended_prefix_map, (dict(x) for x in epm))
+        elif shape == "iterator":
+            call(C.from_extended_prefix_map, iter([dict(x) for x in epm]))
+        elif shape == "map":
+            call(C.from_extended_prefix_map, map(dict, epm))
+        elif shape == "generator-of-records":
+            call(C.from_extended_prefix_map, (gen.mk_record(api, r) for r in recs))
+        else:
+            call(C.from_extended_prefix_map, tuple(dict(x) for x in epm))
         if o[0] == "ret":
             exercise(o[1], [(p, u) for r in recs for p in spec.all_p(r) for u in spec.all_u(r)][:12])
         syn = any(r.psyn or r.usyn for r in recs)
